@@ -1,6 +1,8 @@
 package api
 
 import (
+	"crypto/hmac"
+	"crypto/sha256"
 	"encoding/base64"
 	"encoding/json"
 	"fmt"
@@ -185,7 +187,7 @@ func TestC27_AccessControl(t *testing.T) {
 	r := ev.Get("C27")
 	r.Rule(ruleC27)
 	r.Assume("the endpoint's logic is observed through a stub gateway (every gateway method counts a hit) and through the refusal signature of the response; handlers that answer without the gateway are judged by the response alone")
-	r.Assume("requests are served in process by the multiplexer returned by the verif hook VerifNewServerMux (the same construction as api.create, no TCP listener); expired tokens are minted by VerifNewCSRFTokenWithTime because the signing key is private to the process")
+	r.Assume("requests are served in process by the multiplexer returned by the verif hook VerifNewServerMux (the same construction as api.create, no TCP listener); expired tokens are minted by VerifNewCSRFTokenWithTime because the signing key is private to the process; tokens signed by somebody else (no key, zero key, guessable key) are made by the harness")
 	r.Assume("not asserted either way (the statement is silent): credentials presented to a node without configured credentials (the code refuses them with 401), and the content type of v2 POST requests (415)")
 	oldTokenKnown := hx.IsKnown("C27", "csrf-superseded-token")
 	hx.Check(t, "C27", 6000, 400000, func(t *rapid.T) {
@@ -340,7 +342,7 @@ func TestC27_AccessControl(t *testing.T) {
 			q.Origin = hdrVal("origin")
 			q.Referer = hdrVal("referer")
 			// token
-			q.TokenKind = rapid.SampledFrom([]string{"none", "fresh", "fresh", "fresh", "superseded", "expired", "garbage", "truncated", "foreignsig", "edited", "threeparts"}).Draw(t, "token")
+			q.TokenKind = rapid.SampledFrom([]string{"none", "fresh", "fresh", "fresh", "superseded", "expired", "garbage", "truncated", "foreignsig", "edited", "threeparts", "own_key"}).Draw(t, "token")
 			if !free(3) {
 				q.TokenKind = "fresh"
 			}
@@ -378,6 +380,14 @@ func TestC27_AccessControl(t *testing.T) {
 				q.token = base64.RawURLEncoding.EncodeToString(nb) + "." + parts[1]
 			case "threeparts":
 				q.token = fetchToken() + ".x"
+			case "own_key":
+				// a well-formed, unexpired token that somebody else signed: with no key at all, with a key of zeros, with
+				// a guessable key - the node's key is random per process, so none of them can be the right one
+				tj, _ := json.Marshal(map[string]interface{}{"Nonce": base64.StdEncoding.EncodeToString(rapid.SliceOfN(rapid.Byte(), 64, 64).Draw(t, "nonce")), "ExpiresAt": time.Now().Add(20 * time.Second).Format(time.RFC3339Nano)})
+				key := rapid.SampledFrom([][]byte{nil, {}, make([]byte, 64), make([]byte, 32), []byte("secret"), []byte("skycoin")}).Draw(t, "forgery_key")
+				mac := hmac.New(sha256.New, key)
+				mac.Write(tj)
+				q.token = base64.RawURLEncoding.EncodeToString(tj) + "." + base64.RawURLEncoding.EncodeToString(mac.Sum(nil))
 			}
 			// credentials
 			q.CredKind = rapid.SampledFrom([]string{"none", "exact", "exact", "exact", "wrongpass", "wronguser", "shiftleft", "shiftright", "emptypair", "malformed", "swapped"}).Draw(t, "credkind")
